@@ -57,7 +57,7 @@ func probe(args []string) error {
 			p := strings.Split(a[1:], ".")
 			h, _ := strconv.Atoi(p[0])
 			d, _ := strconv.Atoi(p[1])
-			n.cw.gate = make(chan struct{})
+			n.cw.hold(wd.blocks[h].Hash())
 			from := n.r.mark()
 			n.peer.push(p2p.BlocksMsg, enc(types.Blocks{node.Copy(wd.blocks[h], nil)}))
 			n.r.wait("insert begin", func(evs []ev) bool {
@@ -65,9 +65,7 @@ func probe(args []string) error {
 			})
 			n.peer.push(p2p.ConfirmMsg, enc(wd.confirm(h, d)))
 			n.fence()
-			g := n.cw.gate
-			n.cw.gate = nil
-			close(g)
+			n.cw.release()
 		case a == "tick":
 			time.Sleep(600 * time.Millisecond)
 		}
